@@ -1,7 +1,7 @@
 // Copyright 2024 RisingLight Project Authors. Licensed under Apache-2.0.
 
 use super::*;
-use crate::array::{ArrayImpl, DataChunk};
+use crate::array::DataChunk;
 
 /// The executor of a filter operation.
 pub struct FilterExecutor {
@@ -14,9 +14,10 @@ impl FilterExecutor {
         #[for_await]
         for batch in child {
             let batch = batch?;
-            let vis = match Evaluator::new(&self.condition).eval(&batch)? {
-                ArrayImpl::Bool(a) => a,
-                _ => panic!("filters can only accept bool array"),
+            // (the untyped NULL is a valid condition: no row passes)
+            let vis = match Evaluator::new(&self.condition).eval(&batch)?.as_bool_operand() {
+                Some(a) => a,
+                None => panic!("filters can only accept bool array"),
             };
             yield batch.filter(vis.true_array());
         }
